@@ -127,6 +127,7 @@ type opResult struct {
 	violations []violation
 	harness    string // non-empty: the simulation itself misbehaved (inconclusive)
 	panicked   bool
+	trait      string
 }
 
 // safeCall performs the API call and converts a panic into a value.
@@ -262,7 +263,12 @@ func (m *machine) execSim(op Op) opResult {
 			res.skipped = true
 			return res
 		}
-		err = w.simStart(v, r.id)
+		var started bool
+		started, err = w.simStart(v, r.id)
+		if err == nil && !started {
+			res.skipped = true
+			return res
+		}
 	case kSimStop:
 		p := v.Pipelines[r.id]
 		if p == nil || !isRunning(p) {
@@ -306,7 +312,7 @@ func (m *machine) execAPI(op Op) opResult {
 	w.syncOrder(pre)
 	r := w.resolve(pre, op)
 	an := analyse(pre, r)
-	res := opResult{class: an.class, guarded: an.guardConfig || an.guardRunning, armed: op.Fault != nil}
+	res := opResult{class: an.class, trait: an.trait, guarded: an.guardConfig || an.guardRunning, armed: op.Fault != nil}
 	opName := keyKind(op) + an.variant
 
 	storePre := w.db.Current()
